@@ -104,6 +104,57 @@ def mem_instances(formulas, rounds=2):
     return out
 
 
+def strip_goal(goal, fresh):
+    """split a goal into (extra hypotheses, ground conjunct) pairs: conjunctions are split, universally quantified conjuncts are
+    skolemised with fresh constants (proving phi(c) for fresh c proves forall x. phi(x)), implications move their antecedent to the hypotheses"""
+    out = []
+
+    def rec(g, hyps):
+        if z3.is_and(g):
+            for ch in g.children(): rec(ch, hyps)
+        elif z3.is_quantifier(g) and g.is_forall():
+            cs = [fresh(g.var_sort(i), g.var_name(i)) for i in range(g.num_vars())]
+            rec(z3.substitute_vars(g.body(), *reversed(cs)), hyps)
+        elif z3.is_implies(g):
+            rec(g.arg(1), hyps + [g.arg(0)])
+        else:
+            out.append((hyps, g))
+    rec(goal, [])
+    return out
+
+
+def index_instances(hyps, ground, rounds=2, limit=40):
+    """instances of universally quantified hypotheses with ONE integer bound variable at the ground index terms that occur in
+    sequence accesses s[idx] (and idx +- 1) of the ground formulas: a trigger-free replacement for E-matching on sequence terms (sound)."""
+    out = []
+    quants = [h for h in hyps if z3.is_quantifier(h) and h.is_forall() and h.num_vars() == 1 and h.var_sort(0) == I]
+    formulas = [h for h in hyps if not z3.is_quantifier(h)] + list(ground)
+    seen_idx = {}
+    for _ in range(rounds):
+        idxs = {}
+
+        def walk(t, seen):
+            if t.get_id() in seen: return
+            seen.add(t.get_id())
+            if z3.is_quantifier(t): return
+            if z3.is_app(t):
+                if t.decl().kind() == z3.Z3_OP_SEQ_NTH and not _has_var(t.arg(1)): idxs[t.arg(1).get_id()] = t.arg(1)
+                for ch in t.children(): walk(ch, seen)
+        sn = set()
+        for f in formulas + out: walk(f, sn)
+        new = []
+        for k, idx in idxs.items():
+            if k in seen_idx: continue
+            seen_idx[k] = idx
+            for q in quants:
+                for term in (idx, idx + 1, idx - 1):
+                    new.append(z3.substitute_vars(q.body(), term))
+            if len(seen_idx) > limit: break
+        if not new: break
+        out += new
+    return out
+
+
 def _has_var(t):
     if z3.is_var(t): return True
     return any(_has_var(c) for c in t.children())
@@ -632,7 +683,7 @@ class Exec:
         return V('set', v.t, **v.x)
 
     def e_Dict(self, e, st):
-        if e.keys: raise OutOfReach('non-empty dict literal')
+        if e.keys: return V('opaque')          # no information; any use that needs its content is out of reach
         return V('map', None, empty=True)
 
     def join_desc(self, ds):
@@ -740,7 +791,9 @@ class Exec:
                 raise OutOfReach(f'int() of a real without integrality (line {e.lineno})')
             raise OutOfReach('int()')
         if name == 'float':
-            return VR(toreal(args[0]))
+            a = args[0]
+            if a.kind in ('num', 'int', 'bool'): return VN(toreal(a))       # a Python float is a numeric literal value (A-float)
+            return VR(toreal(a))
         if name == 'bool': return VB(truthy(args[0]))
         if name == 'str':
             a = args[0]
@@ -762,6 +815,24 @@ class Exec:
                     c = (y < x) if name == 'min' else (y > x)
                     r = VR(z3.If(c, y, x))
             return r
+        if name in ('any', 'all') and len(args) == 1 and args[0].kind == 'comp' and args[0].x['src'].kind in ('seq', 'set'):
+            comp = args[0]; src = comp.x['src']
+            j = self.fresh(I, 'qj')
+            cst = comp.x['st'].fork(); cst.heap = st.heap
+            for k_, v_ in st.vars.items(): cst.vars.setdefault(k_, v_)
+            self.store(comp.x['target'], src.x['ek'].wrap(src.t[j]), cst)
+            save = self.dry; self.dry += 1
+            try:
+                filt = [truthy(self.ev(c, cst)) for c in comp.x['conds']]
+                val = truthy(self.ev(comp.x['elt'], cst))
+            finally:
+                self.dry = save
+            rng = z3.And(0 <= j, j < z3.Length(src.t), *filt)
+            return VB(z3.Exists([j], z3.And(rng, val)) if name == 'any' else z3.ForAll([j], z3.Implies(rng, val)))
+        if name in ('any', 'all') and len(args) == 1 and args[0].kind == 'seq' and args[0].x['ek'].kind == 'bool':
+            j = self.fresh(I, 'qj'); sq = args[0].t
+            rng = z3.And(0 <= j, j < z3.Length(sq))
+            return VB(z3.Exists([j], z3.And(rng, sq[j])) if name == 'any' else z3.ForAll([j], z3.Implies(rng, sq[j])))
         if name == 'sum' and len(args) == 1 and args[0].kind == 'seq' and args[0].x['ek'].kind in ('real', 'num'):
             return VR(SUMSEQ(args[0].t))
         if name in IDENTITY_FUNCS:
@@ -870,6 +941,7 @@ class Exec:
             if r is not NotImplemented: return [st]
         recv = self.ev(f.value, st)
         args = [self.ev(a, st) for a in call.args]
+        if recv.kind == 'opaque': return [st]
         if recv.kind in ('seq', 'set') and name in ('append', 'add'):
             new = self.seq_append(st, recv, args[0])
             return [self.store(f.value, new, st.fork())]
@@ -888,6 +960,10 @@ class Exec:
             t = z3.If(member(recv.t, unwrap(item, ek)), recv.t, z3.Concat(recv.t, z3.Unit(unwrap(item, ek))))
         else:
             t = z3.Concat(recv.t, z3.Unit(unwrap(item, ek)))
+            # frame facts of append (true of sequences; stated explicitly because E-matching does not see through the sequence theory)
+            j = z3.Int(f'ja!{next(self.fresh_n)}')
+            self.axioms += [z3.Length(t) == z3.Length(recv.t) + 1, t[z3.Length(recv.t)] == unwrap(item, ek),
+                            z3.ForAll([j], z3.Implies(z3.And(0 <= j, j < z3.Length(recv.t)), t[j] == recv.t[j]))]
         return V(recv.kind, t, **recv.x)
 
     def store(self, target, v, st):
@@ -936,6 +1012,9 @@ class Exec:
     def s_Assign(self, n, st):
         st = st.fork()
         v = self.ev(n.value, st)
+        if v.get('empty') and len(n.targets) == 1 and isinstance(n.targets[0], ast.Name):
+            d = (self.c.get('empty_kinds') or {}).get(n.targets[0].id)     # sort of an initially empty local container, from the contract
+            if d is not None: v = V(d.kind, z3.Empty(d.sort()), ek=d.x['elem'])
         for t in n.targets: self.store(t, v, st)
         return [st]
 
@@ -950,11 +1029,24 @@ class Exec:
         st = st.fork(); self.store(n.target, v, st); return [st]
 
     def s_If(self, n, st):
+        st = st.fork()
         c = z3.simplify(truthy(self.ev(n.test, st)))
         out = []
-        if not z3.is_false(c): out += self.block(n.body, st.fork(c))
-        if not z3.is_true(c): out += self.block(n.orelse, st.fork(z3.Not(c)))
+        for cond, stmts in ((c, n.body), (z3.Not(c), n.orelse)):
+            if z3.is_false(z3.simplify(cond)): continue
+            br = st.fork(cond)
+            try:
+                out += self.block(stmts, br)
+            except OutOfReach:
+                # a branch outside the subset only matters if it is reachable under the contract's precondition
+                if self.feasible(br): raise
         return out
+
+    def feasible(self, st):
+        s = z3.Solver(); s.set('timeout', 5000)
+        for a in self.axioms: s.add(a)
+        for p in st.pc: s.add(p)
+        return s.check() != z3.unsat
 
     def s_Return(self, n, st):
         st = st.fork()
@@ -1061,6 +1153,7 @@ class Exec:
     def havoc(self, st, names, attrs, kinds):
         h = st.fork()
         self._cur_state = h
+        names = set(names) | {g for g in (self.c.get('loop_ghosts') or []) if g in st.vars}
         for m in sorted(names):
             if m in st.vars:
                 v = st.vars[m]
@@ -1212,19 +1305,21 @@ class Exec:
                 self.store(n.target, elem(i), hb)
             for out in self.block(n.body, hb):
                 if '$break' in out.vars:
-                    raise OutOfReach('break inside for loop')
+                    o2 = out.fork(); o2.vars.pop('$break'); breaks.append(o2); continue
                 o2 = out.fork(); o2.vars.pop('$continue', None); o2.vars[gi] = VI(i + 1)
                 self.need(o2, self.inv(k, o2), f'loop{k}.preserve', 'loop-preserve', n.lineno)
                 outs.append(o2)
             return outs
 
+        breaks = []
         kinds = self.learn_kinds(body_runner, st, names, attrs)
+        breaks.clear()
         body_runner(self.havoc(st, names, attrs, kinds))
         # exit
         e = self.havoc(st, names, attrs, kinds)
         e.vars[gi] = VI(L)
         e.pc.append(self.inv(k, e, assume=True))
-        return [e]
+        return [e] + breaks
 
     def s_While(self, n, st):
         k = self.loop_ord[id(n)]
@@ -1261,12 +1356,12 @@ class Exec:
 
 
 def find_function(tree, qual):
+    """'Class.method' ; 'Class.name#k' selects the k-th (0-based) definition of that name (singledispatch registrations all called '_')"""
     node = tree
     for part in qual.split('.'):
-        found = None
-        for n in ast.iter_child_nodes(node):
-            if isinstance(n, (ast.FunctionDef, ast.ClassDef)) and n.name == part:
-                found = n
-        if found is None: return None
-        node = found
+        name, _, k = part.partition('#')
+        cands = [n for n in ast.iter_child_nodes(node) if isinstance(n, (ast.FunctionDef, ast.ClassDef)) and n.name == name]
+        if not cands: return None
+        node = cands[int(k)] if k else cands[-1]
+        if k and int(k) >= len(cands): return None
     return node
